@@ -31,6 +31,7 @@ from .. import c07_env as denv
 LEVEL = 'model_checking'
 
 CFG4 = [(0, False), (0, True), (2, False), (2, True)]
+CFG2 = [(0, False), (2, True)]
 HORIZON = 20000
 RUN_LIMIT = 120.0
 COMPILE_LIMIT = 180.0     # wall clock; generous because the machine is shared
@@ -162,12 +163,54 @@ def judge_error(module, arming, expect):
         else:
             if o.end == 'horizon':
                 bad.append(('no-halt', obs_of(o)))
+    if arming in cat.HANDLER_MODES and not bad:
+        bad.extend(judge_handler_mode(arming, expect, o1))
     # de-duplicate (tick and run usually agree)
     seen = []
     for b in bad:
         if b not in seen:
             seen.append(b)
     return seen, o1
+
+
+def judge_handler_mode(arming, expect, o):
+    """ON ERROR GOTO h with a handler that gives up (goto0), fails itself (fail)
+    or ends the program (end).  Entering a GOTO handler needs no debug info, so
+    the demands hold for every configuration:
+      goto0  ON ERROR GOTO 0 inside the handler re-raises the error: the run ends
+             with the error of the *original* class
+      fail   a second error inside a handler is fatal: the run ends with that
+             error (illegal function call, ASC(""), by construction)
+      end    the handler was entered (how the run ends after END inside a
+             handler is not specified)"""
+    kind = expect[0]
+    text = printed(o.events)
+    entered = 'H' in text
+    done = o.end in ('halt', 'eoc')
+    bad = []
+    if o.end == 'horizon':
+        return [('no-halt', obs_of(o))]
+    if kind == 'ok':
+        if entered or not done or 'after' not in text:
+            bad.append(('spurious-error', obs_of(o)))
+        return bad
+    if kind == 'trap' and not entered:
+        return [('no-error-reported', obs_of(o) + ' (handler not entered)')]
+    if kind not in ('trap', 'maybe') or not entered:
+        return bad
+    if 'not reached' in text:
+        bad.append(('handler-continued-after-fatal-error', obs_of(o)))
+    elif arming == 'goto0':
+        if o.end != 'trap':
+            bad.append(('error-not-re-raised', obs_of(o)))
+        elif o.trap not in expect[1]:
+            bad.append(('wrong-class', obs_of(o)))
+    elif arming == 'fail':
+        if o.end != 'trap':
+            bad.append(('error-in-handler-not-fatal', obs_of(o)))
+        elif o.trap != cat.IFC:
+            bad.append(('wrong-class', obs_of(o)))
+    return bad
 
 
 def _debug_class(cfgs):
@@ -185,8 +228,8 @@ def errors_chunk(chunk, tier):
     viol = []
     st = {'evaluations': 0, 'runs': 0, 'ticks': 0, 'not_accepted': 0,
           'outcomes': set(), 'nontrivial': 0, 'handler_entries': 0, 'resumed': 0,
-          'errors_cases': 0}
-    for case, ctx, site in chunk:
+          'errors_cases': 0, 'handler_mode_entries': 0}
+    for case, ctx, site, extra_modes in chunk:
         st['errors_cases'] += 1
         groups = {}
         expect = case['expect']
@@ -194,9 +237,10 @@ def errors_chunk(chunk, tier):
             # used as a subscript of xa%(0 TO 3), a value that is produced after
             # all may be out of range or too large for the index conversion
             expect = ('maybe', tuple(sorted(set(expect[1]) | {cat.SUBS, cat.OVF})))
-        for arming in cat.ARMINGS:
+        for arming in cat.ARMINGS + list(extra_modes):
             src = cat.build_source(case, arming, ctx, site)
-            for o, g in CFG4:
+            cfgs_ = CFG4 if (arming in cat.ARMINGS or tier != 'quick') else CFG2
+            for o, g in cfgs_:
                 r = impl.compile_text(src, o, g, limit=COMPILE_LIMIT, want_listing=False)
                 if not r.ok:
                     st['not_accepted'] += 1
@@ -213,6 +257,8 @@ def errors_chunk(chunk, tier):
                     st['nontrivial'] += 1
                 if arming == 'goto' and 'H' in text:
                     st['handler_entries'] += 1
+                if arming in cat.HANDLER_MODES and 'H' in text:
+                    st['handler_mode_entries'] += 1
                 if arming != 'none' and 'after' in text and case['expect'][0] == 'trap':
                     st['resumed'] += 1
                 for div, obs in bad:
@@ -234,6 +280,13 @@ def errors_chunk(chunk, tier):
 
 def expect_text(expect, arming):
     base = 'no host exception; halted with a defined halt reason; tick-by-tick and run() agree'
+    if arming == 'goto0':
+        return base + '; the handler re-raises with ON ERROR GOTO 0: ends with the original error class ' + \
+            '/'.join(expect[1] if len(expect) > 1 else ())
+    if arming == 'fail':
+        return base + '; the handler itself fails with ASC(""): ends with INVALID_OPERAND_VALUE'
+    if arming == 'end':
+        return base + '; the handler is entered and ends the program'
     if arming != 'none':
         return base + ' (handler armed: totality only)'
     if expect[0] == 'trap':
@@ -775,11 +828,22 @@ def run(chk):
         cases = cat.error_cases(tier)
         items = []
         for c in cases:
-            for ctx, site in cat.variants(c, tier):
-                items.append((c, ctx, site))
+            for i, (ctx, site) in enumerate(cat.variants(c, tier)):
+                # the further handler shapes: quick - first variant of every case
+                # with a cause; thorough - every variant at module level or in a SUB
+                if quick:
+                    extra = cat.HANDLER_MODES if (i == 0 and c['cause'] != 'none') else []
+                else:
+                    extra = cat.HANDLER_MODES if site in ('main', 'sub') else []
+                items.append((c, ctx, site, tuple(extra)))
         fams['errors'] = {
             'cause_cases': len(cases), 'programs': len(items) * 3,
             'arming_modes': cat.ARMINGS, 'configs': [cfg_name(*c) for c in CFG4],
+            'handler_modes': {'modes': cat.HANDLER_MODES,
+                              'programs': sum(len(it[3]) for it in items),
+                              'on': 'first variant of every case with a cause' if quick
+                                    else 'every variant at module level or in a SUB',
+                              'configs': [cfg_name(*c) for c in (CFG2 if quick else CFG4)]},
             'by_cause': _count(c['cause'] for c in cases),
             'contexts': cat.CONTEXTS_N, 'sites': cat.SITES if not quick else ['main', 'sub', 'function', 'for'],
             'executions_per_program': 'tick-by-tick + run()'}
